@@ -188,6 +188,12 @@ func genFloatLiteral(rng *Rng) string {
 		return randCase(rng, []string{"nan", "snan"}[rng.Intn(2)])
 	case 2:
 		return neg + []string{"0.0", "0e0", "0.000", "0x0.0", "0x0p0", "0.0e5", "00.0"}[rng.Intn(7)]
+	case 3:
+		// a hex float whose first significant digit is e / E (a digit there, not an exponent marker) and
+		// which is too small for float16 / float32 (or, with the larger exponents, float64): not zero
+		// (seeded change C24B3 took the e for an exponent marker and accepted the element as zero)
+		m := []string{"e", "E", "0.0e", "0.E1", "e.8", "E1.f", "00.00e8", "0.0ee"}[rng.Intn(8)]
+		return neg + randCase(rng, "0x") + m + fmt.Sprintf("p-%d", []int{140, 151, 160, 200, 1080, 1100, 1200}[rng.Intn(7)])
 	}
 	sep := rng.P(1, 4)
 	if rng.P(1, 2) {
@@ -381,6 +387,22 @@ func runC24(r *Run) {
 							}
 						default:
 							got = "OK " + numEventText(&Event{K: "fl", F: floatOfBits(k.bits, el[0])})
+							// exact reference for the one thing the driver's semantics skips for hex floats: a literal
+							// that denotes a non-zero number is not the element zero (a value too small for the type
+							// is refused; seeded change C24B3 read e-leading hex mantissas as zero)
+							if floatOfBits(k.bits, el[0]) == 0 {
+								t := strings.ReplaceAll(lit, "_", "")
+								if suffix == "x" && !strings.ContainsAny(strings.ToLower(t), "in") {
+									if strings.HasPrefix(t, "-") {
+										t = "-0x" + t[1:]
+									} else {
+										t = "0x" + t
+									}
+								}
+								if ref, _, perr := new(big.Float).SetPrec(4096).Parse(t, 0); perr == nil && ref.Sign() != 0 {
+									r.out.Finding("C24", "nonzero-element-read-as-zero:"+k.name, fmt.Sprintf("the element %s of %s denotes a non-zero number but is decoded as zero", lit, doc), doc)
+								}
+							}
 						}
 					} else {
 						got = fmt.Sprintf("OK %d", el[0])
